@@ -1037,7 +1037,7 @@ func (r *RouteTrie) RemovePool(cidr ip.CIDR) {
 }
 
 func (r *RouteTrie) UpdateBlockRoute(cidr ip.CIDR, nodeName string) {
-	r.updateCIDR(cidr, func(ri *RouteInfo) {
+	changed := r.updateCIDR(cidr, func(ri *RouteInfo) {
 		block := Block{NodeName: nodeName}
 
 		if len(ri.Blocks) == 0 {
@@ -1046,13 +1046,36 @@ func (r *RouteTrie) UpdateBlockRoute(cidr ip.CIDR, nodeName string) {
 			ri.Blocks[0] = block
 		}
 	})
+	if changed {
+		r.markBlockChildrenDirty(cidr)
+	}
 }
 
 func (r *RouteTrie) RemoveBlockRoute(cidr ip.CIDR) {
-	r.updateCIDR(cidr, func(ri *RouteInfo) {
+	changed := r.updateCIDR(cidr, func(ri *RouteInfo) {
 		// The datastore constraints guarantee that we only see one Block for a CIDR.
 		ri.Blocks = nil
 	})
+	if changed {
+		r.markBlockChildrenDirty(cidr)
+	}
+}
+
+// markBlockChildrenDirty marks the routes nested inside a block route as dirty: their workload type
+// bits and "borrowed" flag are derived from the enclosing block when they are flushed.  Single-address
+// routes (borrowed addresses) have no children, so the scan is skipped for them.
+func (r *RouteTrie) markBlockChildrenDirty(cidr ip.CIDR) {
+	if cidr == nil {
+		return
+	}
+	fullLen := 32
+	if cidr.Version() == 6 {
+		fullLen = 128
+	}
+	if int(cidr.Prefix()) >= fullLen {
+		return
+	}
+	r.markChildrenDirty(cidr)
 }
 
 func (r *RouteTrie) AddHost(cidr ip.CIDR, nodeName string) {
